@@ -65,6 +65,28 @@ def rel_between(st, xs, ys):
     return best if found else None
 
 
+def nonneg(st, aff):
+    """is the affine form >= 0 on this path?  (intervals of its atoms, or of a value that equals it up to a positive factor)"""
+    dv = D.eval_aff(st, aff)
+    if dv is not None and dv[0] >= 0:
+        return True
+    from math import gcd
+    g = 0
+    for c in list(aff.co.values()) + [aff.c0]:
+        g = gcd(g, abs(c))
+    if g == 0:
+        return True
+    red = D.Aff({k: c // g for k, c in aff.co.items()}, aff.c0 // g)
+    for v in vids_equal_to(st, red):
+        if D.get_iv(st, v)[0] >= 0:
+            return True
+    neg = D.aff_scale(red, -1)
+    for v in vids_equal_to(st, neg):
+        if D.get_iv(st, v)[1] <= 0:
+            return True
+    return False
+
+
 def check_since(ctx, N, fn, U, floor_inst=1):
     I = N.I
     n = ok = 0
@@ -121,7 +143,36 @@ def check(ctx):
         fn = f'<{ty} as shared::DateUtilities>::days_since'
         N.run(fn, variants=('fixed',))
         check_since(ctx, N, fn, NPD)
-    # duration_between: symmetric absolute difference -- structural part: Date's is |days_since| * 86_400 s
+    # duration_between: the absolute difference of the two instants (hence symmetric): secs * 1e9 + subsec == |I(a) - I(b)|
+    for ty in ('date::Date', 'time::Time'):     # DateTime::duration_between needs the order established by cmp::min/max: not decided
+        fn = f'{ty}::duration_between'
+        if not ctx.anchor(I.bodies, fn, 'C06 duration_between'):
+            continue
+        N.run(fn, variants=('fixed',))
+        n = ok = 0
+        for args, st0, outs in N.results.get(fn, []):
+            a, b = deref(I, st0, args[0]), deref(I, st0, args[1])
+            for st, rv in outs:
+                n += 1
+                if rv[0] != 's' or rv[2][0][0] != 'i' or rv[2][1][0] != 'i':
+                    ctx.finding(f'C06:BETWEEN|{fn}', 'duration_between is the absolute difference', I.bodies[fn]['span'], f'{fn}: the returned Duration is not tracked exactly')
+                    continue
+                tot = D.aff_add(D.aff_scale(D.aff_of(rv[2][0][1]), 10**9), D.aff_of(rv[2][1][1]))
+                ta, _ = parts(I, st, a, 1)
+                tb, _ = parts(I, st, b, 1)
+                delta = D.aff_add(ta, tb, -1)
+                good = False
+                for sign in (1, -1):
+                    if D.aff_equiv(tot, D.aff_scale(delta, sign), 0, st=st):
+                        sub = D.get_iv(st, rv[2][1][1])
+                        if nonneg(st, D.aff_scale(delta, sign)) and 0 <= sub[0] and sub[1] < 10**9:
+                            good = True
+                if good:
+                    ok += 1
+                else:
+                    ctx.finding(f'C06:BETWEEN|{fn}', 'duration_between is the absolute difference', I.bodies[fn]['span'],
+                                f'{fn}: on one path secs * 10^9 + subsec_nanos is not provably |I(a) - I(b)| (result {tot}, difference {delta} in {D.eval_aff(st, delta)})')
+        ctx.rule('C06 duration_between = |I(a) - I(b)|', n, ok, floor=1, sample={'fn': fn})
     N.judge(kinds=('ARITH', 'BOUNDS', 'CAST', 'UNWRAP', 'PANIC', 'STDPRE'))
     ctx.cov['trusted_base'] += ['rustc MIR of the dev profile', 'lemma: trunc((U*D+d)/U) = D - [D>0,d<0] + [D<0,d>0] for |d|<U',
                                 'vf/models.py rows: ' + ', '.join(sorted(I.models_used))[:400]]
